@@ -256,6 +256,45 @@ def check_hasconv(case: t.Any, ctx: Ctx) -> None:
                  f"after into_data ({k}) the value holds {after[0]} {dict(after[1])}")
 
 
+# ---- construction from a caller's dict, with a __post_init__ that fills in a derived field -----------------------------------------
+
+def derived_cases(shard: int, nshards: int) -> t.Iterator[t.Any]:
+    i = 0
+    for frozen in (True, False):
+        for path in ('from_dict_unchecked', 'from_data', 'make_unchecked(**d)', 'Cls(**d)', 'copy'):
+            for kind in ('dict', 'OrderedDict', 'MyMap'):
+                if i % nshards == shard:
+                    yield [frozen, path, kind]
+                i += 1
+
+
+def check_derived(case: t.Any, ctx: Ctx) -> None:
+    import pane
+    (frozen, path, kind) = case
+    key = ('Circle', frozen)
+    if key not in _HC:
+        def post(self: t.Any) -> None:
+            object.__setattr__(self, 'area', 3 * self.r * self.r)       # a derived field, filled in by the class
+        _HC[key] = type('Circle', (pane.PaneBase,), {'__annotations__': {'r': float, 'area': float}, 'area': pane.field(init=False, exclude=True, default=0.0),
+                                                     '__post_init__': post}, frozen=frozen)
+    Cls = _HC[key]
+    d = {'dict': dict, 'OrderedDict': collections.OrderedDict, 'MyMap': codec.MyMap}[kind]([('r', 2.0)])
+    if kind == 'MyMap' and path in ('from_dict_unchecked',):
+        return      # (documented to take a dict)
+    before = (type(d).__name__, list(d.items()))
+    ctx.label(path, kind, 'frozen' if frozen else 'mutable')
+    ctx.nontrivial(True)
+    ctx.evaluated()
+    (k, x) = outcome({'from_dict_unchecked': lambda: Cls.from_dict_unchecked(d), 'from_data': lambda: Cls.from_data(d), 'make_unchecked(**d)': lambda: Cls.make_unchecked(**d),
+                      'Cls(**d)': lambda: Cls(**d), 'copy': lambda: copy.copy(Cls.from_dict_unchecked(d))}[path])
+    if k == 'ok' and not frozen:
+        x.r = 5.0                   # what the caller does with the instance afterwards is the instance's business
+    after = (type(d).__name__, list(d.items()))
+    if after != before:
+        ctx.fail('input-unchanged', f"{path}/derived-field", f"class Circle(r: float; area filled in by __post_init__), {'frozen' if frozen else 'not frozen'}: after {path} on "
+                 f"{before[0]} {dict(before[1])} ({k}){'' if frozen else ' and an assignment to the instance'} the caller's mapping is {dict(after[1])}")
+
+
 def _inserting() -> t.Any:
     # mapping-shaped targets (struct literals, Dict / Mapping, dataclasses) first, then the whole grammar
     sc = tg.type_specs(2)
@@ -278,6 +317,7 @@ def suites(tier: str) -> t.List[Suite]:
         Suite('nomutate', check, strategy=lambda: gen.conv_cases(gen.all_type_specs(leaves)), examples=8000 if big else 600,
               budget_s=480 if big else 40, render=gen.render_case),
         Suite('inserting-maps', check, strategy=_inserting, examples=4000 if big else 300, budget_s=200 if big else 20, render=gen.render_case),
+        Suite('derived-field', check_derived, cases=derived_cases, exhaustive=True, budget_s=30, render=lambda c: {'frozen': c[0], 'path': c[1], 'mapping': c[2]}),
         Suite('variant-converter', check_hasconv, cases=hasconv_cases, exhaustive=True, budget_s=30, render=lambda c: {'layout': c[0], 'where': c[1], 'mapping': c[2]}),
         Suite('tagged', check, strategy=_tagged, examples=3000 if big else 250, budget_s=240 if big else 25, render=gen.render_case),
     ]
